@@ -12,7 +12,7 @@ PROPS = {
         gen=["GenInventory"],
         check_targets=["Check/CheckParse.vo"],
         proof_targets=["Props/C03.vo"],
-        theorems=[("C03", "C03_partial"), ("C03", "C03_partial_component"), ("C03", "C03_known_sites_all_reached"),
+        theorems=[("C03", "C03_model_never_panics"), ("C03", "C03_model_never_panics_component"), ("C03", "C03_partial"), ("C03", "C03_partial_component"),
                   ("C03", "C03_inventory_covered"), ("C03", "C03_inventory_no_unknown"), ("C03", "C03_inventory_reachable_eq_known"),
                   ("C03", "C03_checker_sound"), ("C03", "C03_no_unlisted_failures")],
         quick=dict(n=20000), thorough=dict(n=400000),
@@ -27,13 +27,13 @@ PROPS = {
              "(outer level and inner modules), 6 % random strings; 23 hand-written witnesses (corpus/C03.json) first; each input is parsed with "
              "Module::parse(b,false), Module::parse(b,true), Component::parse(b,false) under catch_unwind; non-trivial = the input gets past the "
              "8-byte header (about 94 %)",
-        level_text="Coq proof (every abstract input, no size bound) that the hand-written model of the parser's glue code panics only at the twelve "
-                   "committed known sites, one vm_compute witness per site (nine on inputs wasmparser's validator accepts), and a vm_compute "
-                   "coverage theorem over the panic-site inventory regenerated from /repo/src on every run (every unwrap / expect / panic!-like "
-                   "macro / index / slice / arithmetic site reachable from Module::parse / Component::parse has a status, the Reachable classes equal "
-                   "the known table). The model is tied to /repo's working tree by differential evaluation inside Coq: predicted Ok / Err / Panic "
-                   "site =? observed, on fuzzed near-valid binaries; any observed panic outside the known table is a violation.",
-        level_note="Partial: the property itself is false (D09a-D09l). Not covered: panics inside wasmparser, allocation failure, stack exhaustion "
+        level_text="Coq proof (every abstract input, no size bound) that the hand-written model of the parser's glue code never panics (the table of "
+                   "known panic sites is empty since the repairs of D09a-D09l), one vm_compute example per repaired site (the former witnesses are "
+                   "parsed or rejected with Err), and a vm_compute coverage theorem over the panic-site inventory regenerated from /repo/src on "
+                   "every run (every unwrap / expect / panic!-like macro / index / slice / arithmetic site reachable from Module::parse / "
+                   "Component::parse has a Guarded status, none is Reachable). The model is tied to /repo's working tree by differential evaluation "
+                   "inside Coq: predicted Ok / Err =? observed, on fuzzed near-valid binaries; any observed panic is a violation.",
+        level_note="Partial (the theorem is about the payload abstraction, not the bytes). Not covered: panics inside wasmparser, allocation failure, stack exhaustion "
                    "on deep nesting; inputs on which the model answers 'unmodelled' (none sampled). Trusted: Coq kernel + vm_compute; the harness "
                    "(generator, mutators, its own wasmparser pass computing the payload abstraction, panic-site classification by file / function / "
                    "message); the one-line Guarded arguments of Model/PanicSites.v; that sampled agreement extends to unsampled inputs. The library is "
@@ -69,7 +69,7 @@ _RT_COMMON = dict(
          "globals over the const-expr forms incl. NaN payloads, 3-8 functions whose bodies mix a typed expression generator (i32 / i64 / f64, blocks, "
          "loops, ifs, br_if, br_table, select, loads, stores) with per-proposal instruction snippets, exports, start, active / passive / declared element "
          "segments in both encodings, active / passive data, every identifier named so that all twelve name maps are present) and assembled with wat; 30 % of "
-         "the binaries are decorated (extra custom sections anywhere, producers sections with 0-3 fields, the name section moved before the code / import "
+         "the binaries are decorated (extra custom sections anywhere, producers sections with 0-3 fields or undecodable fields, second name sections with undecodable maps, the name section moved before the code / import "
          "section or to the front, early name sections without function names / with imported function names only); every input is validated with exactly "
          "the features of its profile set and redrawn otherwise (about 1.5 % redraws); 13 hand-written seeds corpus/roundtrip/*.wat (one or more per "
          "proposal) first; parsed with the multi-memory flag iff the profile has multi-memory; non-trivial = valid input with at least two functions",
@@ -87,7 +87,7 @@ PROPS["C02"] = dict(
                "type is in D10, and that every failure lies in a known class. The emission half of Module::encode is not modelled: it is tied to the "
                "property by differential evaluation inside Coq of decoded input vs decoded output (item texts per kind, twelve name maps, custom-section "
                "list) on generated valid modules of every profile.",
-    level_note="Partial: false today (D10a; D09a-d, D09i-j make the parse panic on valid modules). D23 was not reproduced. Not proved: faithfulness of "
+    level_note="Partial: false today (D10a; D09i-j: a valid module whose name section has an undecodable entry is rejected with Err). D23 does not exist. Not proved: faithfulness of "
                "encode_internal's section emission (sampled). Trusted: Coq kernel + vm_compute; the harness (WAT generator, decorations, summaries by "
                "wasmprinter text with custom sections stripped, name-map decoding); wasmparser / wasmprinter / wat; that sampled agreement extends to unsampled inputs.",
     design_ref="5/C02",
@@ -99,17 +99,17 @@ PROPS["C02"] = dict(
 PROPS["C01"] = dict(
     _RT_COMMON,
     proof_targets=["Props/C01.vo"],
-    theorems=[("C01", "C01_checker_sound"), ("C01", "C01_valid_roundtrip"), ("C01", "C01_parse_failures_known"), ("C01", "C01_valtype_faithful")],
+    theorems=[("C01", "C01_checker_sound"), ("C01", "C01_valid_roundtrip"), ("C01", "C01_parse_never_panics"), ("C01", "C01_valtype_faithful")],
     quick=dict(n=1500), thorough=dict(n=40000),
     level_text="Validity after the round trip is reduced to C02's content equality: Coq proof that on an agreeing sampled case with a valid input, parse "
                "model Ok and equal decoded content the output was observed valid, hence (with C02) every agreeing case outside D09 / D10 satisfies C01; Coq "
                "proof (C03) that the parse model panics only at known sites; value-type conversion theorem over generated tables. The oracle is "
                "wasmparser's Validator with exactly the features of the module's profile set, on input and output, for generated valid modules of every profile.",
-    level_note="Partial: false today (D09a-d, D09i-j: parse panics on valid modules; D10a: exnref comes back non-nullable and the output is invalid). The "
+    level_note="Partial: false today (D09i-j: a valid module whose name section has an undecodable entry is rejected with Err; D10a: exnref comes back non-nullable and the output is invalid). The "
                "reduction 'validity depends only on decoded content and section order' is an assumption sampled on every case, not a theorem; no Gallina "
                "model of the validator or of encode_internal. Trusted as for C02.",
     design_ref="5/C01",
     assumptions=["'valid' = accepted by wasmparser 0.235's Validator with exactly the features of the profile set the module was generated for",
                  "multi-memory modules are parsed with enable_multi_memory = true, all others with false",
-                 "extended constant expressions are excluded by the quantifier (they make the parse panic: D09f)"],
+                 "extended constant expressions are excluded by the quantifier (Module::parse rejects them with Err)"],
 )
